@@ -104,7 +104,10 @@ def gen_case(r, cm, dm, max_steps=50):
     ratio = 10.0 ** r.uniform(-5, 0.3)
     dt = ratio * mmin / damping
     mutual_only = all(is_mutual(cells, cm, (ci, ni)) for ci, c in enumerate(cells) for ni, n in enumerate(c["nodes"]) if n["coup"])
-    threads = r.choice([1, 2, 4]) if (mutual_only and cm != 2) else 1
+    ids_ok = all(c["lid"] == i for i, c in enumerate(cells))
+    # the model is the sequential order; with mutual couplings AND local ids = positions every pair has exactly one owner,
+    # the visits write disjoint slots and the parallel loops (CM 0/1) must give the same result: run those multi-threaded too
+    threads = r.choice([1, 2, 4]) if (mutual_only and ids_ok and cm != 2) else 1
     return {"cm": cm, "dm": dm, "threads": threads, "dt": dt, "damping": damping, "nsteps": nsteps, "cells": cells, "cls": cls}
 
 
